@@ -480,6 +480,29 @@ func c07OnlyMigrantsDiffer(small, big string, migrants map[string]bool) bool {
 	if big != "" {
 		bl = strings.Split(big, "\n")
 	}
+	// the migrant may also land on the very line of the next comment: yaml.v3 then reads "<migrant> <own comment>"
+	if len(sl) == len(bl) && len(sl) > 0 {
+		joined, same := 0, true
+		for i := range sl {
+			if sl[i] == bl[i] {
+				continue
+			}
+			hit := false
+			for m := range migrants {
+				if m != "" && !strings.Contains(m, "\n") && bl[i] == m+" "+sl[i] {
+					hit = true
+				}
+			}
+			if !hit {
+				same = false
+				break
+			}
+			joined++
+		}
+		if same && joined > 0 {
+			return true
+		}
+	}
 	extra := 0
 	j := 0
 	for _, ln := range bl {
